@@ -89,6 +89,11 @@ def check(ctx, run):
     allowed = {"TestRegistry::TestRegistry", "TestRegistry::addTest", "TestRegistry::unDoLastAddTest", "TestRegistry::shuffleTests", "TestRegistry::reverseTests"}
     run.ob("R1", "tests_ is written only by registration, undo, shuffle and reverse", "include/CppUTest/TestRegistry.h:TestRegistry::tests_", set(ws) <= allowed, witness=ws)
 
+    # "in each repetition ... these three counts sum to the number of registered tests": the counters live in a TestResult
+    # that must be fresh for every repetition
+    from .shared import fresh_result_per_repetition
+    fresh_result_per_repetition(prog, run, "R1")
+
     # ---------------- R2 ----------------------------------------------------
     sr = prog.fn("UtestShell::shouldRun")
     run.analysed(sr)
